@@ -179,7 +179,7 @@ func (g *htmlGen) attrsFor(name string) []hAttr {
 	switch name {
 	case "a":
 		if r.Chance(3, 4) {
-			add("href", r.Pick([]string{"http://example.com/a?b=1&c=2", " https://x.org/ ", "HTTP://Example.com/", "#frag", "/p/q.html", "mailto:a@b.c", "page.html?x=1&amp=2", "?q=a b"}))
+			add("href", r.Pick([]string{"http://example.com/a?b=1&c=2", " https://x.org/ ", "HTTP://Example.com/", "#frag", "/p/q.html", "mailto:a@b.c", "page.html?x=1&amp=2", "?q=a b", "docs/Annual  Report.pdf", "/search?q=new  york&lang=en", "mailto:a@b.c?subject=Hi&body=two  spaces"}))
 		}
 		if r.Chance(1, 4) {
 			add("rel", r.Pick([]string{"nofollow", " noopener  noreferrer "}))
@@ -197,7 +197,7 @@ func (g *htmlGen) attrsFor(name string) []hAttr {
 			add("name", r.Pick([]string{id, strings.ToLower(id), strings.ToUpper(id), id + "x"}))
 		}
 	case "img":
-		add("src", r.Pick([]string{"a.png", " b.jpg ", "data:image/png;base64,iVBORw0KGgo=", "http://x/y.gif"}))
+		add("src", r.Pick([]string{"a.png", " b.jpg ", "data:image/png;base64,iVBORw0KGgo=", "http://x/y.gif", "img/my  photo.png"}))
 		add("alt", g.freeText())
 		if r.Chance(1, 3) {
 			add("width", r.Pick([]string{"10", " 20 "}))
@@ -236,7 +236,7 @@ func (g *htmlGen) attrsFor(name string) []hAttr {
 			add("method", r.Pick([]string{"get", "GET", "post", " post "}))
 		}
 		if r.Chance(1, 2) {
-			add("action", r.Pick([]string{"", "/submit", " /s?a=1&b=2 "}))
+			add("action", r.Pick([]string{"", "/submit", " /s?a=1&b=2 ", "/do  it"}))
 		}
 		if r.Chance(1, 4) {
 			add("enctype", r.Pick([]string{"application/x-www-form-urlencoded", "multipart/form-data"}))
